@@ -45,7 +45,9 @@ let kind_of = function
   | s -> failwith ("kind " ^ s)
 
 let event_of tok =
-  let nn s = nat_of_int (int_of_string s) in
+  (* an event on a descriptor that is not a node of the graph (the harness writes -1) is not an event of
+     the model: reject the line instead of aliasing it to node 0 *)
+  let nn s = let i = int_of_string s in if i < 0 then failwith ("unknown descriptor in " ^ tok) else nat_of_int i in
   let bb s = (s = "1") in
   match String.split_on_char '.' tok with
   | ["XB"; n] -> ExB (nn n)
